@@ -157,6 +157,26 @@ func runC09(c *Ctx) {
 			ok := len(a) == 3 && a[1] == "st.vm.BlockContext.Coinbase" && re(`^call:\(\*math/big\.Int\)\.Mul\(`+bigNew+`, call:\(\*math/big\.Int\)\.SetUint64\(`+bigNew+`, call:`+stT+`\.gasUsed\(st\)\), st\.gasPrice\)$`).MatchString(a[2])
 			c.Check("F", fnName(fn)+"/coinbase gets gasUsed*gasPrice", ok, instrPos(in), 1, describeInstr(in))
 		}
+		// the gas-used figure behind the fee and the reported result is read AFTER the refund was applied
+		refs := findInstrs(fn, rel)
+		if len(refs) == 1 {
+			bad := ""
+			check := func(root ssa.Value, what string) {
+				for _, g := range callsInSlice(root, stT+`\.gasUsed$`) {
+					if !instrBefore(refs[0], g) {
+						bad = what + " uses gasUsed() evaluated at " + c.P.Pos(g.Pos()) + ", before refundGas at " + c.P.Pos(instrPos(refs[0]))
+					}
+				}
+			}
+			for _, in := range findInstrs(fn, fee) {
+				check(callCommon(in).Args[len(callCommon(in).Args)-1], "the coinbase fee")
+			}
+			for _, in := range findInstrs(fn, StoreTo(`^&alloc:complit:kvm\.ExecutionResult\.UsedGas$`)) {
+				check(in.(*ssa.Store).Val, "the reported UsedGas")
+			}
+			c.Check("O", fnName(fn)+"/fee and reported gas are computed from gasUsed() after the refund", bad == "", fn.Pos(), 3,
+				bad+": the proposer is paid for gas the sender gets refunded, so value is created")
+		}
 		for _, in := range findInstrs(fn, StoreTo(`^&alloc:complit:kvm\.ExecutionResult\.UsedGas$`)) {
 			c.Check("F", fnName(fn)+"/reported UsedGas is gasUsed()", pathOf(in.(*ssa.Store).Val) == "call:(*mainchain/blockchain.StateTransition).gasUsed(st)", instrPos(in), 1, describeInstr(in))
 		}
@@ -224,6 +244,22 @@ func runC09(c *Ctx) {
 			}
 		}
 		c.errorExitsRevert(fn, revert)
+	}
+	if fn := c.Fn("kvm", "KVM", "create"); fn != nil {
+		bump := CallTo(`^iface:\(kvm\.StateDB\)\.SetNonce$`, `SetNonce\(kvm\.StateDB, call:iface:\(kvm\.ContractRef\)\.Address\(caller\), \(call:iface:\(kvm\.StateDB\)\.GetNonce\(kvm\.StateDB, call:iface:\(kvm\.ContractRef\)\.Address\(caller\)\) \+ const:1\)\)$`)
+		n := len(findInstrs(fn, bump))
+		c.Check("O", fnName(fn)+"/exactly one creator nonce bump", n == 1, fn.Pos(), n, "")
+		c.Precedes(fn, "creator nonce bump", bump, "StateDB.Snapshot() (the bump must survive a failed creation)", snap)
+		c.Guarded(fn, "creator nonce bump", bump, G("depth within the limit", Cmp(`^kvm\.depth$`, "<=", `^const:\d+$`)), G("CanTransfer", True(`CanTransfer\(`)))
+	}
+	if fn := c.Fn("kai/state", "StateDB", "Suicide"); fn != nil {
+		zero := func(in ssa.Instruction) bool {
+			st, ok := in.(*ssa.Store)
+			return ok && strings.HasSuffix(pathOf(st.Addr), ".data.Balance") && pathOf(st.Val) == "&alloc:new:math/big.Int"
+		}
+		c.OnEveryPath(fn, "zero the account's balance", zero, "return true", ReturnWith(0, `^const:true$`))
+		c.OnEveryPath(fn, "journal the previous balance", CallTo(`^\(\*kai/state\.journal\)\.append$`, ""), "return true", ReturnWith(0, `^const:true$`))
+		c.Precedes(fn, "journal.append(suicideChange)", CallTo(`^\(\*kai/state\.journal\)\.append$`, ""), "zero the balance", zero)
 	}
 	for _, name := range []string{"Call", "create"} {
 		if fn := c.Fn("kvm", "KVM", name); fn != nil {
@@ -391,4 +427,38 @@ func (c *Ctx) OnFailureTo(fn *ssa.Function, g Guard, relDesc string, rel SinkSel
 		}
 	}
 	c.OK("O", key, instrPos(sites[0].If), len(sites), "")
+}
+
+// callsInSlice: call instructions to callees matching calleeRe in the backward def-use slice of v.
+func callsInSlice(v ssa.Value, calleeRe string) []*ssa.Call {
+	var out []*ssa.Call
+	seen := map[ssa.Value]bool{}
+	var walk func(v ssa.Value, d int)
+	walk = func(v ssa.Value, d int) {
+		if v == nil || seen[v] || d > 30 {
+			return
+		}
+		seen[v] = true
+		if cl, ok := v.(*ssa.Call); ok && re(calleeRe).MatchString(calleeNameNoPath(&cl.Call)) {
+			out = append(out, cl)
+		}
+		if a, ok := v.(*ssa.Alloc); ok {
+			for _, r := range *a.Referrers() {
+				if st, ok := r.(*ssa.Store); ok && st.Addr == a {
+					walk(st.Val, d+1)
+				}
+			}
+			return
+		}
+		if in, ok := v.(ssa.Instruction); ok {
+			var ops []*ssa.Value
+			for _, op := range in.Operands(ops) {
+				if op != nil && *op != nil {
+					walk(*op, d+1)
+				}
+			}
+		}
+	}
+	walk(v, 0)
+	return out
 }
